@@ -108,6 +108,77 @@ def fanout_facts():
     return unconditional and all_in_loops, reads, uses_conn, stores
 
 
+def transport_facts():
+    """from the AST of TCPRequestHandler.send_reply / finish, RequestHandler.__init__ / handle / finish and
+    Dispatcher.remove_connection / reset_connection:
+    (a) the exception classes caught around `sendall`, and whether EVERY handler of that `try` assigns
+        `self.running = False` as a statement of its own (not under a condition);
+    (b) `sendall` is only called under `if self.running:` inside `with self.send_lock:`;
+    (c) every `while` loop of `handle` tests `self.running` and nothing else;
+    (d) `__init__` calls `self.finish()` in the `finally` of the `try` that calls `self.handle()`;
+    (e) `finish` tells the dispatcher `remove_connection(self)`; the TCP `finish` calls the base `finish` and closes the socket
+        in a `finally`;
+    (f) `remove_connection` takes the connection out of `_connections` and calls `reset_connection`, which discards it from
+        every set of `_subscriptions` and from `_active_connections`"""
+    import ast
+    import inspect
+    import textwrap
+    from frappy.protocol.dispatcher import Dispatcher
+    from frappy.protocol.interface.handler import RequestHandler
+    from frappy.protocol.interface.tcp import TCPRequestHandler
+
+    def tree_of(obj):
+        return ast.parse(textwrap.dedent(inspect.getsource(obj)))
+
+    def calls(node, suffix):
+        return [n for n in ast.walk(node) if isinstance(n, ast.Call) and ast.unparse(n.func).endswith(suffix)]
+
+    def stops(stmt):
+        return (isinstance(stmt, ast.Assign) and [ast.unparse(t) for t in stmt.targets] == ['self.running']
+                and isinstance(stmt.value, ast.Constant) and stmt.value.value is False)
+
+    tree = tree_of(TCPRequestHandler.send_reply)
+    tries = [n for n in ast.walk(tree) if isinstance(n, ast.Try) and any(calls(st, '.sendall') for st in n.body)]
+    caught, all_stop = [], bool(tries)
+    for t in tries:
+        all_stop = all_stop and bool(t.handlers) and not t.orelse
+        for h in t.handlers:
+            if h.type is None:
+                caught.append('BaseException')
+            elif isinstance(h.type, ast.Tuple):
+                caught += [ast.unparse(e) for e in h.type.elts]
+            else:
+                caught.append(ast.unparse(h.type))
+            all_stop = all_stop and any(stops(st) for st in h.body)
+    all_sends = calls(tree, '.sendall')
+    in_tries = sum(len(calls(st, '.sendall')) for t in tries for st in t.body)
+    all_stop = all_stop and len(all_sends) == in_tries
+    guarded = False
+    for w in [n for n in ast.walk(tree) if isinstance(n, ast.With)
+              and any(ast.unparse(i.context_expr) == 'self.send_lock' for i in n.items)]:
+        ifs = [n for n in w.body if isinstance(n, ast.If) and ast.unparse(n.test) == 'self.running' and not n.orelse]
+        inside = sum(len(calls(st, '.sendall')) for i in ifs for st in i.body)
+        guarded = guarded or (bool(all_sends) and inside == len(all_sends))
+    loops = [n for n in ast.walk(tree_of(RequestHandler.handle)) if isinstance(n, ast.While)]
+    loops_ok = bool(loops) and all(ast.unparse(lp.test) == 'self.running' for lp in loops)
+    init = tree_of(RequestHandler.__init__)
+    finish_always = any(isinstance(n, ast.Try) and any(calls(st, 'self.handle') for st in n.body)
+                        and any(calls(st, 'self.finish') for st in n.finalbody) for n in ast.walk(init))
+    finish_removes = any(ast.unparse(c) == 'self.server.dispatcher.remove_connection(self)'
+                         for c in calls(tree_of(RequestHandler.finish), 'remove_connection'))
+    tfin = tree_of(TCPRequestHandler.finish)
+    finish_closes = (any(ast.unparse(c) == 'super().finish()' for c in calls(tfin, '.finish'))
+                     and any(isinstance(n, ast.Try) and any(calls(st, 'self.request.close') for st in n.finalbody)
+                             for n in ast.walk(tfin)))
+    rem = tree_of(Dispatcher.remove_connection)
+    res = tree_of(Dispatcher.reset_connection)
+    forgets = (bool(calls(rem, 'self._connections.remove')) and bool(calls(rem, 'self.reset_connection'))
+               and bool(calls(res, 'self._active_connections.discard'))
+               and any(isinstance(n, ast.For) and '_subscriptions' in ast.unparse(n.iter) and calls(n, '.discard')
+                       for n in ast.walk(res)))
+    return caught, all_stop, guarded, loops_ok, finish_always, finish_removes, finish_closes, forgets
+
+
 def generate():
     from frappy.params import Parameter
     from frappy.lib import generalConfig
@@ -122,7 +193,17 @@ def generate():
     from translate import llist, lbool
     changed_exprs, omit_tests = funnel_facts()
     fan_uncond, fan_reads, req_uses_conn, req_stores = fanout_facts()
+    (send_caught, send_stops, send_guarded, loops_ok, finish_always, finish_removes, finish_closes,
+     remove_forgets) = transport_facts()
     return [
+        'def sendCaught : List String := ' + llist(lstr(c) for c in send_caught),
+        f'def sendFailureStops : Bool := {lbool(send_stops)}',
+        f'def sendGuardedByRunning : Bool := {lbool(send_guarded)}',
+        f'def handleLoopsTestRunning : Bool := {lbool(loops_ok)}',
+        f'def finishAlwaysCalled : Bool := {lbool(finish_always)}',
+        f'def finishRemovesConnection : Bool := {lbool(finish_removes)}',
+        f'def tcpFinishClosesSocket : Bool := {lbool(finish_closes)}',
+        f'def removeConnectionForgets : Bool := {lbool(remove_forgets)}',
         'def changedExprs : List String := ' + llist(lstr(c) for c in changed_exprs),
         'def earlyReturnTests : List String := ' + llist(lstr(c) for c in omit_tests),
         f'def fanoutUnconditional : Bool := {lbool(fan_uncond)}',
